@@ -923,6 +923,20 @@ def m_str_starts_with(c):
         pat = Str(text=chr(z3.simplify(pat.v).as_long()))
     if isinstance(s_, Str) and s_.text is not None and isinstance(pat, Str) and pat.text is not None:
         return z3.BoolVal(s_.text.startswith(pat.text) if c.canon.endswith('starts_with') else s_.text.endswith(pat.text))
+    if isinstance(s_, Str) and s_.text is None and s_.parts is None and isinstance(pat, Str) and pat.text is not None:
+        # abstract string against a literal pattern: an uninterpreted predicate on the string's identity, pinned to the truth on
+        # every literal the run knows (so "equal to the literal `_from`" implies "starts with `_`")
+        kind = 'starts' if c.canon.endswith('starts_with') else 'ends'
+        f = z3.Function(f'str_{kind}_with[{pat.text}]', z3.BitVecSort(64), z3.BoolSort())
+        key = ('str_pred', kind, pat.text)
+        done = c.st.env.setdefault(key, set())
+        for text in list(Str._intern):
+            if text is None or text in done:
+                continue
+            done.add(text)
+            truth = text.startswith(pat.text) if kind == 'starts' else text.endswith(pat.text)
+            c.st.assume(f(Str(text=text).id) == z3.BoolVal(truth))
+        return f(s_.id)
     raise Unsupported('starts_with / ends_with on a string that is not a literal')
 
 
